@@ -251,6 +251,12 @@ def join_tmpl(x, y):
             out.append(p)
         elif isinstance(p, frozenset) and isinstance(q, frozenset):
             out.append(p | q)
+        elif isinstance(p, tuple) and isinstance(q, tuple) and p and q and "fresh" in (p[0], q[0]) and p[0] != q[0]:
+            # the source below an adaptor: stepped on one path, not yet on the other
+            r = join_tmpl(p, q)
+            if r is None:
+                return None
+            out.append(r)
         elif isinstance(p, tuple) and isinstance(q, tuple) and p and q and isinstance(p[0], str) and p[0] == q[0] and \
                 p[0] in ("av", "nbr", "enum", "filter", "map", "filter_map", "pairs", "jobs", "fresh", "nbredges", "zip"):
             r = join_tmpl(p, q)
